@@ -125,6 +125,12 @@ def rand_pair(rng):
         b = [(x + g * math.cos(ang), y + g * math.sin(ang)) for x, y in a]
         if rng.random() < 0.5 and len(a) == 2:
             b = [(b[0][0], b[0][1]), (b[1][0] + 7.0, b[1][1] + 3.0)]
+    if rng.random() < 0.12:
+        # far from the origin: squared coordinates dwarf the squared distance (F31)
+        o = rng.choice([1e7, 1e8, -3e8])
+        g = float(rng.choice([1, 2, 5]))
+        a = [(x + o, y + o) for x, y in a]
+        b = [(x + o, y + o + (g if k == 0 else 0.0)) for k, (x, y) in enumerate(b)]
     return a, b
 
 
